@@ -213,4 +213,5 @@ def items(tier, seed):
             job_open={'dur': [0], 'out': ['raise'], 'forever': [True],
                       'critical': [True]},
             top_open={'window': [1, 2]}, nest_open={'window': [1]},
-            k=2 if th else (1 if where == 'top' else 0), kind='twin')
+            k=(2 if where == 'top' else 1) if th else
+            (1 if where == 'top' else 0), kind='twin')
